@@ -762,6 +762,7 @@ where
                         substream=%id,
                         "Ignoring reset for mutually closed substream"
                     );
+                    self.substreams.insert(id, state);
                 }
                 SubstreamState::Reset { .. } => {
                     tracing::trace!(
@@ -769,6 +770,7 @@ where
                         substream=%id,
                         "Ignoring redundant reset for already reset substream"
                     );
+                    self.substreams.insert(id, state);
                 }
                 SubstreamState::RecvClosed { buf }
                 | SubstreamState::SendClosed { buf }
@@ -1223,6 +1225,49 @@ mod tests {
         fn poll_close(self: Pin<&mut Self>, _: &mut Context<'_>) -> Poll<io::Result<()>> {
             Poll::Ready(Ok(()))
         }
+    }
+
+    #[test]
+    fn redundant_reset_keeps_substream_until_dropped() {
+        let cfg = Config {
+            max_substreams: 1,
+            ..Config::default()
+        };
+        let mut r_buf = BytesMut::new();
+        let mut codec = Codec::new();
+        let first = LocalStreamId::dialer(0);
+        let second = LocalStreamId::dialer(1);
+        codec
+            .encode(Frame::Open { stream_id: first }, &mut r_buf)
+            .unwrap();
+        // The remote resets the substream twice.
+        for _ in 0..2 {
+            codec
+                .encode(Frame::Reset { stream_id: first }, &mut r_buf)
+                .unwrap();
+        }
+        codec
+            .encode(Frame::Open { stream_id: second }, &mut r_buf)
+            .unwrap();
+
+        let conn = Connection {
+            r_buf,
+            w_buf: BytesMut::new(),
+            eof: false,
+        };
+        let mut m = Multiplexed::new(conn, cfg);
+        let cx = &mut Context::from_waker(futures::task::noop_waker_ref());
+
+        let id = LocalStreamId::listener(0);
+        assert!(matches!(m.poll_next_stream(cx), Poll::Ready(Ok(i)) if i == id));
+        // The first substream has not been dropped, so it still counts towards
+        // `max_substreams` and the second `Open` must be answered with a reset.
+        assert!(m.poll_next_stream(cx).is_pending());
+        assert!(m.substreams.contains_key(&id));
+        assert_eq!(m.substreams.len(), 1);
+        assert!(m.open_buffer.is_empty());
+        m.drop_stream(id);
+        assert!(m.substreams.is_empty());
     }
 
     #[test]
